@@ -2,8 +2,9 @@
   C08 — New vesting accounts get exactly the documented amount and schedule.
 -/
 import C4E.Vesting
+import C4E.Lemmas.VestBacked
 namespace C4E.Props.C08
-open C4E C4E.Vest
+open C4E C4E.Vest C4E.CoinList
 
 /-- the part of `amount` subject to vesting, as computed by `newVestingAccount` -/
 def vestedPart (amount free : Int) : Int :=
@@ -58,6 +59,86 @@ theorem start_is_max (lockEnd now : Int) :
   by_cases h : lockEnd < now
   · rw [if_pos h]; omega
   · rw [if_neg h]; omega
+
+/-! ### the handler's post-state -/
+
+theorem sendFromModule_ok_eq (s s' : State) (dst : String) (c : Coins) (h : s.sendFromModule dst c = .ok s') :
+    s' = s.applySend s.modAddr dst c := by
+  unfold State.sendFromModule at h
+  split at h
+  · cases h
+  · exact send_ok_eq _ _ _ _ _ h
+
+/-- **what `newVestingAccount` leaves behind**: a brand-new continuous vesting account at `to`
+    whose original vesting is exactly `vestedPart amount free` of the vesting denom, with the
+    schedule start = max(lock end, now), end = vesting end (whole seconds), a fresh account number,
+    and a balance that grew by exactly `amount` -/
+theorem newVestingAccount_post (s s' : State) (to : String) (amount free le ve : Int)
+    (h : newVestingAccount s to amount free le ve = .ok s') :
+    s.accts.get? to = none ∧
+    s'.accts.get? to = some { kind := .cva, num := s.nextNum, ov := nz [(s.denom, vestedPart amount free)],
+                              startS := unixSec (if le < s.now then s.now else le), endS := unixSec ve } ∧
+    (to ≠ s.modAddr → amountOf (s'.balance to) s.denom = amountOf (s.balance to) s.denom + amount) := by
+  unfold newVestingAccount at h
+  split at h
+  · cases h
+  · split at h
+    · cases h
+    · split at h
+      · cases h
+      · rename_i hex
+        simp only [] at h
+        split at h
+        · cases h
+        · split at h
+          · rename_i s2 hsend
+            cases h
+            · have := sendFromModule_ok_eq _ _ _ _ hsend
+              subst this
+              have hnone : s.accts.get? to = none := by
+                cases hg : s.accts.get? to with
+                | none => rfl
+                | some r => rw [hg] at hex; simp at hex
+              refine ⟨hnone, ?_, ?_⟩
+              · -- the send finds the account just created and leaves the record alone
+                unfold State.applySend newCva
+                simp only [AList.get?_set_self, Option.isSome_some, if_true]
+                rfl
+              · intro hne
+                have := applySend_bal_dst (newCva s to (nz [(s.denom, Dec.truncInt (Dec.ofInt amount - Dec.mul (Dec.ofInt amount) free))])
+                  (unixSec (if le < s.now then s.now else le)) (unixSec ve)) s.modAddr to (nz [(s.denom, amount)]) s.denom (Ne.symm hne)
+                rw [amountOf_nz_single] at this
+                exact this
+          · cases h
+          · cases h
+
+/-- a request above what is still locked in the pool fails (nothing changes: `deliver` keeps the
+    state of a failed message) -/
+theorem send_above_locked_fails (s : State) (o to : Addr) (pool : String) (amount : Int) (restart : Bool)
+    (w : Res) (ps : List Pool) (p : Pool)
+    (hw : withdrawAll s o = .ok w) (hps : w.st.pools.get? o.s = some ps) (hp : lastNamed pool ps = some p)
+    (habove : p.locked < amount) : ∀ res, sendToNew s o to pool amount restart ≠ .ok res := by
+  intro res h
+  unfold sendToNew at h
+  split at h
+  · cases h
+  · rw [hw] at h
+    simp only [hps] at h
+    split at h
+    · cases h
+    · simp only [hp, habove, if_true] at h
+      cases h
+
+/-- the pool's `sent` counter grows by exactly the amount sent (on the last pool of that name) -/
+theorem bumpLast_adds_exactly (name : String) (amount : Int) (ps : List Pool) (p : Pool) (h : lastNamed name ps = some p) :
+    poolsLocked (bumpLast name amount ps).1 = poolsLocked ps - amount ∧
+    ∀ q' ∈ (bumpLast name amount ps).1, q' ∈ ps ∨ q' = { p with sent := p.sent + amount } := by
+  have hflag : (bumpLast name amount ps).2 = true := by rw [bumpLast_flag, h]; rfl
+  refine ⟨by rw [poolsLocked_bumpLast, hflag]; simp, ?_⟩
+  intro q' hq'
+  rcases bumpLast_mem name amount ps q' hq' with h1 | ⟨q, hq, rfl⟩
+  · exact Or.inl h1
+  · rw [h] at hq; cases hq; exact Or.inr rfl
 
 theorem vestedPart_nonvacuous : vestedPart 1000 50000000000000000 = 950 ∧ vestedPart 7 333333333333333333 = 4 := by
   decide
